@@ -19,6 +19,10 @@
       Display, Number → the JSON text of the number, String → itself, Object →
       "[object Object]", Array → the elements' forms joined with ",", where a null
       element contributes "" and every other element recurses.
+  K5  clamping can neither trap nor wrap: no raw integer Add/Sub/Mul/Shl/Neg
+      (checked-by-assert or unchecked) in substr's reach — index arithmetic goes
+      through checked_* / saturating_* / min / max / unsigned_abs / try_into, whose
+      failure arms are explicit.
 Not decided: clamping arithmetic values for negative start/length, the split/recombine law.
 """
 import re
@@ -31,6 +35,25 @@ from . import units as U
 
 VALUE = "serde_json::Value"
 BYTE_SLICING = re.compile(r"^core::str::traits::<impl std::ops::Index<I> for str>::index$|^<std::string::String as std::ops::Index<I>>::index$|^core::str::<impl str>::(split_at|get|get_unchecked|as_bytes|bytes|char_indices|find|rfind|is_char_boundary|split_at_checked)$|^std::string::String::(as_bytes|truncate|split_off|drain|into_bytes)$")
+
+
+def guarded_sub(b, bi, rv):
+    """a - b on unsigned operands under a dominating test that a >= b (or a > b) of the same operands."""
+    a, c = strip_refs(b.trace(rv["a"])), strip_refs(b.trace(rv["b"]))
+    for sb in b.reachable():
+        tt = b.blocks[sb]["term"]
+        if tt["k"] != "SwitchInt" or tt.get("dty") != "bool":
+            continue
+        e = strip_refs(b.trace(tt["discr"]))
+        if e[0] != "binop" or e[1] not in ("Gt", "Ge", "Lt", "Le"):
+            continue
+        x, y = strip_refs(e[2]), strip_refs(e[3])
+        for truth in (True, False):
+            op = e[1] if truth else {"Gt": "Le", "Ge": "Lt", "Lt": "Ge", "Le": "Gt"}[e[1]]
+            implies = (op in ("Gt", "Ge") and (x, y) == (a, c)) or (op in ("Lt", "Le") and (y, x) == (a, c))
+            if implies and edge_dominates(b, sb, bool_edge(b, sb, truth), bi):
+                return True
+    return False
 
 
 def to_string_role(facts):
@@ -93,6 +116,25 @@ def run(ctx):
                 src_ok = x[0] == "field" and x[1][0] == "downcast" and x[1][2] == "String" and expr_mentions(x, lambda y: y[0] == "call" and y[1] and y[1]["path"].endswith("Index<I>>::index") and const_value(strip_refs(y[2][1])[1]) == 0)
                 good = chain == ["collect", "take", "skip", "chars"] and src_ok
         ctx.check(len(oks) == 1 and good, "K2.slice-shape", "substr returns chars().skip(start).take(count).collect() of operand 0 (%s)" % cfg, "substr's result is %s" % show_expr(r)[:200], where=sb.where(), fn=sb.key, nontrivial=True)
+        # ---- K5: clamping can neither trap nor wrap
+        raw = []
+        for xb in su.bodies:
+            for bi, si, st in xb.stmts():
+                if st["k"] != "Assign":
+                    continue
+                rv = st["rv"]
+                if rv["k"] == "BinaryOp" and re.match(r"^(Add|Sub|Mul|Shl)(WithOverflow|Unchecked)?$", rv["op"]) and re.match(r"^[iu](8|16|32|64|128|size)$", rv.get("opty") or ""):
+                    if rv["a"]["k"] == "Const" and rv["b"]["k"] == "Const":
+                        continue
+                    if rv["op"].startswith("Sub") and rv["opty"].startswith("u") and guarded_sub(xb, bi, rv):
+                        continue
+                    raw.append((xb, bi, si, "%s on %s" % (rv["op"], rv["opty"])))
+                elif rv["k"] == "UnaryOp" and rv.get("op") == "Neg" and re.match(r"^i(8|16|32|64|128|size)$", rv.get("opty") or rv.get("ty") or ""):
+                    raw.append((xb, bi, si, "Neg"))
+        for (xb, bi, si, what) in raw:
+            ctx.fail("K5.clamp-arithmetic", "substr|%s|%s" % (xb.key.split("::", 1)[1], what), "substr computes an index with raw integer arithmetic (%s): at the 64-bit extremes it traps (debug) or wraps (release) instead of clamping to the string" % what, where=xb.where(bi, si), fn=xb.key)
+        if not raw:
+            ctx.ok("K5.clamp-arithmetic", "substr: index arithmetic only through checked_* / saturating_* / min / max / unsigned_abs / try_into (%s)" % cfg, nontrivial=True)
         ints = [s for s in su.calls_path(r"^serde_json::Number::as_i64$")]
         ctx.check(len(ints) >= 2, "K2.integer-operands", "start and length are read with as_i64 (%s)" % cfg, "%d as_i64 reads" % len(ints), where=sb.where(), fn=sb.key)
 
